@@ -25,3 +25,14 @@ void WrStrErrorPos(tErrorNum Num, const struct sStrComp* pStrComp) {
     g_err_cnt++;
     g_err_last = (int)Num;
 }
+
+/* errmsg.c: argument count check; same truth value as the real one, reports by counting */
+Boolean ChkArgCntExtPos(int ThisCnt, int MinCnt, int MaxCnt, const struct sLineComp* pComp) {
+    (void)pComp;
+    if ((ThisCnt < MinCnt) || (ThisCnt > MaxCnt)) {
+        g_err_cnt++;
+        g_err_last = (int)ErrNum_WrongArgCnt;
+        return False;
+    }
+    return True;
+}
